@@ -2,6 +2,8 @@
 tupletree <-> JSON, and the Codec oracle tables (IEEE text conversion, CIMDateTime, embedded XML)."""
 import struct
 
+import re
+HEXPAT = re.compile(r'^(\+|\-)?0[xX][0-9a-fA-F]+$')
 INT_TYPES = ('uint8', 'sint8', 'uint16', 'sint16', 'uint32', 'sint32', 'uint64', 'sint64')
 
 
@@ -26,6 +28,7 @@ class Tables:
 
     def __init__(self):
         self.reals, self.strf, self.floats, self.dts, self.embs = {}, {}, {}, {}, {}
+        self.truncs, self.fofi = {}, {}
 
     def real(self, w64, x):
         from pywbem._cim_types import atomic_to_cim_xml
@@ -39,8 +42,21 @@ class Tables:
         import pywbem
         t = s.strip()
         try:
-            self.floats[t] = bits(float(t))
+            x = float(t)
+            self.floats[t] = bits(x)
+            try:
+                self.truncs[bits(x)] = str(int(x))
+            except (OverflowError, ValueError) as e:
+                self.truncs[bits(x)] = type(e).__name__
         except (ValueError, OverflowError):
+            pass
+        try:
+            i = int(t, 16) if HEXPAT.match(t) else int(t)
+            try:
+                self.fofi[str(i)] = bits(float(i))
+            except OverflowError:
+                self.fofi[str(i)] = None
+        except ValueError:
             pass
         try:
             self.dts[s] = str(pywbem.CIMDateTime(s))
@@ -75,7 +91,9 @@ class Tables:
                 'strf': [[b, cps(t)] for b, t in self.strf.items()],
                 'floats': [[cps(t), b] for t, b in self.floats.items()],
                 'dts': [[cps(t), ocps(v)] for t, v in self.dts.items()],
-                'embs': [[cps(t), v] for t, v in self.embs.items()]}
+                'embs': [[cps(t), v] for t, v in self.embs.items()],
+                'truncs': [[b, v] for b, v in self.truncs.items()],
+                'fofi': [[i, b] for i, b in self.fofi.items()]}
 
 
 def atom_to_json(v, T):
